@@ -231,7 +231,12 @@ class Gen:
         if self.env.with_none:
             opts.append("n_or")
         opts.append("odd_eq_display")
+        opts.append("dunder_call")
         k = rng.choice(opts)
+        if k == "dunder_call":
+            # the attribute looked up on the way is a method-wrapper / a bound builtin method (a routine: never to be shown)
+            return rng.choice(["{xs}.__len__()", "{xs}.__len__() + {i}", "{s}.__len__()", "{d}.__len__()", "{xs}.count({i})", "{xs}.__contains__({i}) + {i2}"]).format(
+                xs=self.list_expr(d + 1), s=self.str_expr(d + 1), d=self.n("d"), i=self.int_leaf(), i2=self.int_leaf())
         if k == "odd_eq_display":
             # list / tuple displays holding values whose __eq__ raises or gives a result without a truth value: building a display
             # compares nothing, and neither may the re-computation
@@ -721,4 +726,7 @@ def split_part_with_candidates(part: str, candidates: List[str]) -> Tuple[str, s
 
 
 def representable(value: Any) -> bool:
-    return not (inspect.isclass(value) or inspect.isfunction(value) or inspect.ismethod(value) or inspect.ismodule(value) or inspect.isbuiltin(value))
+    # ("classes, functions, methods, modules and builtins are left out": the methods of the built-in types also come as
+    # method-wrappers - a_list.__len__ - and method descriptors - list.append)
+    return not (inspect.isclass(value) or inspect.isfunction(value) or inspect.ismethod(value) or inspect.ismodule(value) or inspect.isbuiltin(value)
+                or inspect.ismethoddescriptor(value) or isinstance(value, type(object().__str__)))
